@@ -1,7 +1,73 @@
+(* C32: HTTP/2 frames round-trip and malformed frames are rejected.  Property theorems only.
+   Vocabulary (model/H2Frame.v): `wcmd` = one call of Framer.WriteData(Padded)/WriteHeaders/WritePriority/
+   WriteRSTStream/WriteSettings/WriteSettingsAck/WritePushPromise/WritePing/WriteGoAway/WriteWindowUpdate/
+   WriteContinuation with its parameters; `write_cmd c` = the bytes the call puts on the wire (None: the call
+   returned an error); `expected c` = the frame (type, flags, stream, length, payload fields) the parameters
+   describe; `read_frame maxread lhs bs` = one Framer.ReadFrame call on the wire bytes bs with
+   SetMaxReadFrameSize(maxread) and lastHeaderStream = lhs, giving (result, new lastHeaderStream, remaining
+   bytes); `must_reject` = the frame-level MUST rules of RFC 7540 4.2, 6.1-6.10 as a predicate on
+   (header, payload, reader state). *)
 From Coq Require Import List ZArith Bool.
-From Bfe Require Import lib.Val model.H2Frame run.RunC32.
+From Bfe Require Import lib.Val lib.ValProofs model.H2Frame proofs.H2FrameProofs run.RunC32.
 Import ListNotations.
 Open Scope Z_scope.
-Example C32_placeholder : enc32 65535 = [0; 0; 255; 255].
-Proof. exact eq_refl. Qed.
-Print Assumptions C32_placeholder.
+
+(* Round trip, all ten frame types: for every Write call with legal parameters (wf_cmd: stream ids 1..2^31-1
+   where required, bytes in 0..255, pad <= 255, SETTINGS values valid per 6.5.2, ...) other than HEADERS with an
+   empty fragment, whatever follows on the wire (rest), if the frame fits the reader's limit and is in order,
+   ReadFrame returns exactly the frame described by the parameters - identical type, flags, stream, length
+   and payload fields - and leaves `rest` unread. *)
+Theorem C32_roundtrip : forall c bytes h b maxread lhs lhs' rest,
+  wf_cmd c = true -> empty_headers c = false ->
+  write_cmd c = Some bytes -> expected c = Some (h, b) ->
+  blen bytes < 16777216 -> h_len h <= maxread -> check_order lhs h = Some lhs' ->
+  read_frame maxread lhs (bytes ++ rest) = (ROk h b, lhs', rest).
+Proof. exact roundtrip_all. Qed.
+Print Assumptions C32_roundtrip.
+
+(* The excluded class is a genuine round-trip failure (known finding 1): WriteHeaders writes a HEADERS frame with
+   an empty header block fragment, ReadFrame answers StreamError(PROTOCOL_ERROR). *)
+Theorem C32_roundtrip_refuted :
+  wf_cmd (WHeaders 1 [] false true 0 0 false 0) = true /\
+  exists bytes, write_cmd (WHeaders 1 [] false true 0 0 false 0) = Some bytes /\
+                read_frame 16777215 0 bytes = (RStream 1 1, 0, []).
+Proof. exact empty_headers_refuted. Qed.
+Print Assumptions C32_roundtrip_refuted.
+
+(* Rules: whenever ReadFrame accepts a frame from ANY byte stream, the frame is the one announced by the 9 header
+   bytes, its payload has the announced length, does not exceed the maximum read size, and violates none of the
+   MUST rules: stream-0 restrictions (DATA/HEADERS/PRIORITY/RST_STREAM/PUSH_PROMISE/CONTINUATION need a stream,
+   SETTINGS/PING/GOAWAY must be on stream 0), padding < remaining payload, fixed sizes of PRIORITY/RST_STREAM/
+   PING/WINDOW_UPDATE, GOAWAY >= 8, SETTINGS length multiple of 6 and empty with ACK, non-zero WINDOW_UPDATE
+   increment, CONTINUATION exactly after an unfinished header block of the same stream. *)
+Theorem C32_rules : forall maxread lhs bs h b lhs' rest,
+  bytes_ok bs = true ->
+  read_frame maxread lhs bs = (ROk h b, lhs', rest) ->
+  h = parse_hdr bs /\ h_len h <= maxread /\
+  let p := takeZ (h_len h) (dropZ 9 bs) in
+  blen p = h_len h /\ rest = dropZ (h_len h) (dropZ 9 bs) /\
+  must_reject maxread lhs h p = false.
+Proof. exact read_frame_ok_rules. Qed.
+Print Assumptions C32_rules.
+
+(* SETTINGS values: a frame written from valid settings carries none the server's Setting.Valid rejects, and a
+   first INITIAL_WINDOW_SIZE above 2^31-1 is refused by ReadFrame itself (part of C32_roundtrip's SETTINGS case). *)
+Theorem C32_settings_values : forall l fuel,
+  forallb setting_ok l = true -> (length l <= fuel)%nat ->
+  settings_vcode fuel (flat_map enc_setting l) = 0 /\
+  match settings_value fuel (flat_map enc_setting l) 4 with Some v => v <= 2147483647 | None => True end.
+Proof. exact settings_ok_gen. Qed.
+Print Assumptions C32_settings_values.
+
+(* Non-vacuity *)
+Example C32_roundtrip_example :
+  let c := WHeaders 3 [130; 134] true false 2 1 true 200 in
+  wf_cmd c = true /\ empty_headers c = false /\
+  exists bytes, write_cmd c = Some bytes /\
+    read_frame 16384 0 (bytes ++ [9; 9]) =
+      (ROk (mkh 1 41 3 10) (BHeaders 1 true 200 [130; 134]), 3, [9; 9]).
+Proof. exact roundtrip_example. Qed.
+Example C32_rules_example :
+  must_reject 16384 0 (mkh 0 8 1 3) [3; 1; 2] = true /\ must_reject 16384 0 (mkh 4 0 0 5) [0; 1; 0; 0; 0] = true /\
+  must_reject 16384 5 (mkh 0 0 5 0) [] = true /\ must_reject 16384 0 (mkh 0 8 1 3) [2; 1; 2] = false.
+Proof. exact rules_example. Qed.
